@@ -10,6 +10,7 @@
    every operation with a non-negative amount, every sequence of operations of any length. *)
 Require Import Base Constants Fixed Curve Bank BankOps Risk TransferFee Handlers FixedLemmas BankLemmas LedgerLemmas SolvencyWorld HandlerWorld.
 Require Import TxConstants AcctLifecycle LifecycleLedger.
+Require Import PrivGen Deleverage PurgeLedger.
 Local Open Scope Z_scope.
 
 (* the invariant holds after every sequence of operations (failed operations roll back) *)
@@ -76,6 +77,25 @@ Theorem C02_close_removes_only_empty_positions :
 Proof. exact close_removes_only_empty_positions. Qed.
 
 (* non-vacuity: worlds with fresh accounts satisfy the invariant, for any banks with sane share values *)
+(* lending_account_purge_delev_balance (risk admin, sunset bank): the ledger invariant survives, the purged position's
+   asset shares leave the bank total EXACTLY, the liability total, both share values and the vault are untouched, and
+   what the closed position abandons in the liability total is at most ZERO_AMOUNT_THRESHOLD shares (the stored value
+   is an i128, which is the range hypothesis) *)
+Theorem C02_purge_keeps_ledger :
+  forall w a b signs w', HLedger w -> dv_purge w a b signs = Ok w' -> HLedger w'.
+Proof. exact purge_keeps_ledger. Qed.
+
+Theorem C02_purge_effect_on_totals :
+  forall w a b signs w',
+  HLedger w -> dv_purge w a b signs = Ok w' ->
+  exists hb hb' ac i bl,
+    nth_bank w b = Ok hb /\ nth_bank w' b = Ok hb' /\ nth_acct w a = Ok ac /\
+    find_active (bank_pk b) (ha_la ac) = Some i /\ nth_res i (ha_la ac) = Ok bl /\
+    b_tas (hb_b hb') = b_tas (hb_b hb) - bl_a bl /\ b_tls (hb_b hb') = b_tls (hb_b hb) /\
+    0 <= bl_l bl /\ (bl_l bl <= I128_MAX -> bl_l bl <= ZERO_AMOUNT_THRESHOLD) /\
+    b_asv (hb_b hb') = b_asv (hb_b hb) /\ b_lsv (hb_b hb') = b_lsv (hb_b hb) /\ hb_vault hb' = hb_vault hb.
+Proof. exact purge_effect_on_totals. Qed.
+
 Theorem C02_initial_world :
   forall banks n now pf, Forall (fun b => wf_sv b /\ 0 <= b_tas b /\ 0 <= b_tls b) banks ->
   Ledger (mkBW banks (repeat la_empty n) now pf).
@@ -89,3 +109,5 @@ Print Assumptions C02_initial_world.
 Print Assumptions C02_instruction_level.
 Print Assumptions C02_transfer_keeps_position_sums.
 Print Assumptions C02_close_removes_only_empty_positions.
+Print Assumptions C02_purge_keeps_ledger.
+Print Assumptions C02_purge_effect_on_totals.
